@@ -338,9 +338,17 @@ func generate(o *hlib.Out, cfg hlib.Config, sz sizes) {
 	var mu sync.Mutex
 	for w := 0; w < sz.workers; w++ {
 		wg.Add(1)
+		w := w
 		go func() {
 			defer wg.Done()
 			f := newFq()
+			crumb := func(mode string, ii int, text string) {
+				// a Go fatal error (stack overflow, out of memory) cannot be recovered: leave a note saying what
+				// this worker was evaluating, so that the culprit of a dead shard is known
+				if dir := os.Getenv("VERIF_WORK"); dir != "" {
+					_ = os.WriteFile(dir+"/current_"+strconv.Itoa(w)+".txt", []byte(mode+" "+inJSON[ii]+sepInProg+text+"\n"), 0o644)
+				}
+			}
 			for ii := range jobs {
 				in := inputs[ii]
 				if err := f.setIn(in); err != nil {
@@ -357,6 +365,7 @@ func generate(o *hlib.Out, cfg hlib.Config, sz sizes) {
 						texts[i] = progs[it.prog].text
 					}
 					bt := batchText(texts)
+					crumb("B", ii, strings.Join(texts, "  ;;;  "))
 					ro, rok := refBatch(bt, in, len(batch))
 					var fo []Obs
 					fok := false
@@ -380,6 +389,7 @@ func generate(o *hlib.Out, cfg hlib.Config, sz sizes) {
 							}
 							res = append(res, cr)
 						} else {
+							crumb("d", ii, texts[i])
 							ok, a, b := compareDirect(f, texts[i], in)
 							cr := caseRes{mode: "d", prog: it.prog, input: ii, ok: ok, ref: a.String(), fq: b.String(), refEnd: a.End}
 							if !ok {
@@ -398,6 +408,7 @@ func generate(o *hlib.Out, cfg hlib.Config, sz sizes) {
 						}
 						continue
 					}
+					crumb("d", ii, progs[it.prog].text)
 					ok, a, b := compareDirect(f, progs[it.prog].text, in)
 					cr := caseRes{mode: "d", prog: it.prog, input: ii, ok: ok, ref: a.String(), fq: b.String(), refEnd: a.End}
 					if !ok {
